@@ -6,6 +6,10 @@ claimed = {
    text="Every obligation generated from the real go/ssa of ObjectRangeRequest.Range (and the other carriers listed in the evidence) is discharged by an SMT solver for all int64 inputs: postconditions against the specification functions specRange*, absence of integer overflow at every arithmetic site, nil-dereference freedom, frame. No bound on any input.",
    note="Trusted: the gvc VC generator (/verif/gvc), go/ssa, the solvers; assumed library contracts listed in the evidence under trusted_base. Range's precondition wfRangeReq is what parseRangeHeader is proved to establish.",
    technique="contract-based deductive verification: weakest-precondition VCs over go/ssa with //@ contracts, discharged by z3/cvc5", design="7 (C11)"),
+ "C06": dict(category="proof",
+   text="The uploader functions that decide what a completed multipart upload stores (UploadPart, CompleteMultipartUpload, AbortMultipartUpload, bucketUploads.remove, partsAreSorted/partIDs, getUnlocked) are verified against contracts taken from the property: a rejected complete leaves uploader and store untouched (unchanged()), a listed part must exist with a matching ETag, order is checked against the real request order, on success exactly one PutObject with the upload's metadata and a body whose length is the sum of the listed parts, and the upload id is removed. All loop iterations and all inputs; no bound.",
+   note="Trusted: gvc, go/ssa, solvers; assumed contracts for skiplist, io, hash, bytes (trusted_base in the evidence); the Backend.PutObject interface contract (ghost call log); physical assumption 'mem' (listed parts are resident, so their total size fits the allocator). Byte-level equality of the concatenated body is not yet a discharged clause (length is).",
+   technique="contract-based deductive verification: weakest-precondition VCs over go/ssa with //@ contracts, discharged by z3/cvc5", design="7 (C06)"),
 }
 na = {
  "C15": "not applicable: restart/crash durability rests on bbolt's commit protocol, OS file semantics and BSON/JSON encoders, none of which is /repo code a function contract can express (DESIGN.md section 11)",
